@@ -28,6 +28,7 @@ def main():
     checks = []
     for pid in sorted(CHECKS):
         technique, text, note, ref = CHECKS[pid]
+        text = text + (' ' + ADDED[pid] if pid in globals().get('ADDED', {}) else '')
         checks.append({
             'property_id': pid,
             'quick_cmd': '/venv/bin/python /verif/check.py %s --tier quick' % pid,
